@@ -482,9 +482,11 @@ class WrapperTU:
                 if kk == n:
                     size = v.replace("KEYBYTES", str(kb)).replace("SCHEDBYTES", str(sb)).replace("sizeof(*%s)" % n, "sizeof(*((%s) 0))" % typ)
             if isptr and not legacy:
-                lines.append("        %s %s = (%s) vf_ptr(vf_mode[%d], %s);" % (typ, n, typ, i, size or "1"))
+                # the entry points with an alignment rule (_nt) get their data objects at an arbitrary offset 0..63 (seed C13_c)
+                skew = "vf_skew()" if ("_nt" in name and n in ("in", "out")) else "0"
+                lines.append("        %s %s = (%s) vf_ptr(vf_mode[%d], %s, %s);" % (typ, n, typ, i, size or "1", skew))
             elif isptr:
-                lines.append("        %s %s = (%s) vf_ptr(2, 4096);" % (typ, n, typ))
+                lines.append("        %s %s = (%s) vf_ptr(2, 4096, 0);" % (typ, n, typ))
             else:
                 t2 = typ.replace("const ", "")
                 lines.append("        %s %s; /* nondeterministic */" % (t2, n))
@@ -588,12 +590,21 @@ HARNESS_COMMON = r"""
 #else
 #define VF_CANARY() ((void) 0)
 #endif
-static void *vf_ptr(uint8_t mode, size_t size)
+static size_t vf_skew(void)
+{
+        size_t k; /* uninitialised = nondeterministic */
+        __CPROVER_assume(k < 64);
+        return k;
+}
+static void *vf_ptr(uint8_t mode, size_t size, size_t skew)
 {
         if (mode == 0)
                 return (void *) 0;
-        char *p = malloc(size);
+        /* the object is `size` bytes ending exactly at the end of the allocation and starting at an ARBITRARY offset 0..63 into it,
+         * so that its address has arbitrary low bits (skew != 0 only for the data buffers of the _nt entry points: their 64-byte rule; seed C13_c) */
+        char *p = malloc(size + skew);
         __CPROVER_assume(p != 0);
+        p += skew;
         if (mode == 1)
                 return p + size; /* one past the end: any access through it is out of bounds */
         __CPROVER_assume(mode == 2);
